@@ -385,7 +385,7 @@ def replay_multikey(model, kind):
 # ======================================================================================================================
 # bounded stand-in (labelled bounded; never counted as proved)
 # ======================================================================================================================
-POOL = ['154n97w14', '154n97w01', '153n97w14', '2s3e14', '2s10e02', '154n96w14', 'XXXzXXXzXX', '___z97w__', '154nXXXz14']
+POOL = ['154n97w14', '154n97w01', '153n97w14', '2s3e14', '2s10e02', '154n96w14', 'XXXzXXXzXX', '___z97w__', '154nXXXz14', '154n97w00', '0n5w03']
 KEY_COMPONENTS = ['i', 's', 't', 'r', 't.num', 't.ns', 't.sn', 'r.num', 'r.we', 'r.ew', 's.num', 'i.num']
 BAD_KEYS = ['x', 'x.ns', 'q.rev', 't.ew', 'r.ns', 's.ns', 'i.we', 't.', '.ns', 't..ns', 'tt', 't.ns.revv', '', 't.num.ns',
             's.rev.rev', 'ts']
